@@ -549,6 +549,11 @@ def closed_violations(results):
 AFFINE_CF = [["K1"], ["K2"], ["K1", "K2"]]
 
 
+def is_affine(meta):
+    """The spec comes from the class-A generator (directly, or under a spacetime: class T over A)."""
+    return meta.get("kind") == "affine"
+
+
 def attribute_affine(results, v):
     """Known findings C04-K1/K2 on class-A specs, seen through another property's oracle: a failing output is
     attributed only if re-executing the same text with exactly that counterfactual rewrite applied (at least
